@@ -215,7 +215,9 @@ fn via_file(ctx: &mut Ctx, enc: Enc) {
     s.addralign = sh_align;
     s.file_align = lay_align;
     let idx = spec.add(s);
-    spec.segs.push(Seg { p_type: k::PT_NOTE, flags: 4, range: SegRange::OfSection(idx), vaddr: 0, paddr: 0, memsz_extra: 0, align: p_align });
+    // p_memsz (not looked at by any accessor): equal to p_filesz, zero as in core files, larger, smaller
+    let memsz_extra = [0u64, 0, (body.len() as u64).wrapping_neg(), 4, 12, 8u64.wrapping_neg(), 0x1000][ctx.rng.usize_below(7)];
+    spec.segs.push(Seg { p_type: k::PT_NOTE, flags: 4, range: SegRange::OfSection(idx), vaddr: 0, paddr: 0, memsz_extra, align: p_align });
     spec.max_gap = 5;
     let b = build(&spec, &mut ctx.rng);
     let data = &b.bytes[..];
